@@ -137,6 +137,13 @@ func Run(cfg hx.Config) (*hx.Meta, error) {
 	if err := runBroken(cfg, r.Fork(2), meta); err != nil {
 		return nil, err
 	}
+	// round 5: runs over several packages (import graphs), instantiated generic types
+	if err := runMulti(cfg, r.Fork(4), meta); err != nil {
+		return nil, err
+	}
+	if err := runGinst(cfg, meta); err != nil {
+		return nil, err
+	}
 	return meta, nil
 }
 
